@@ -208,7 +208,7 @@ def main(run):
     run.add("transitions", res.generated)
     verdict = {}
     bad = set()
-    for v in extract_tuples(res.out, "L|R-verdict|R-names"):
+    for v in extract_tuples(res.out, 'L"|R-verdict|R-names'):
         if v[0] == "L":
             verdict[v[1]] = (v[2], v[3])
     loops = sum(1 for t in verdict.values() if t[0])
